@@ -38,6 +38,12 @@ func VerifC20MaxDiffWatermark() {
 	payload := make([]octosql.Value, n)
 	for i := 0; i < n; i++ {
 		t, ns := ndUnixTime(fmt.Sprintf("t%d", i))
+		if i == 0 && zzverif.ParamOr("CONC0", 0) == 1 {
+			// the first record's time is concrete (middle of the range): a second record with an
+			// arbitrary time then costs the solver no more than N=1 does
+			t = time.Unix(1<<31, 500)
+			ns = t.UnixNano()
+		}
 		nanos[i] = ns
 		payload[i] = octosql.NewInt(zzverif.Int64(fmt.Sprintf("p%d", i)))
 		msgs = append(msgs, vx.Msg{Kind: vx.MsgRecord, Rec: execution.Record{Values: []octosql.Value{octosql.NewTime(t), payload[i]}}})
@@ -51,11 +57,24 @@ func VerifC20MaxDiffWatermark() {
 		withWM = append(withWM, vx.Msg{Kind: vx.MsgWatermark, Watermark: wm})
 		msgs = append(withWM, msgs[at:]...)
 	}
+	var src execution.Node = vx.NewScriptSource(msgs)
+	twice := zzverif.ParamOr("TWICE", 0) == 1
+	if twice {
+		// the SAME materialised node is run twice (as LookupJoin does with its joined side): first
+		// over one record with a CONCRETE time in the middle of the range (a second symbolic time
+		// makes the queries as hard as N=2), then over the script; the second run must behave like
+		// a first one
+		warm := time.Unix(1<<31, 0)
+		src = &verifSeqSource{scripts: [][]vx.Msg{{{Kind: vx.MsgRecord, Rec: execution.Record{Values: []octosql.Value{octosql.NewTime(warm), octosql.NewInt(0)}}}}, msgs}}
+	}
 	node := &maxDifferenceWatermarkGenerator{
-		source:         vx.NewScriptSource(msgs),
+		source:         src,
 		maxDifference:  execution.NewConstant(octosql.NewDuration(time.Duration(maxDiff))),
 		resolution:     execution.NewConstant(octosql.NewDuration(res)),
 		timeFieldIndex: 0,
+	}
+	if twice {
+		zzverif.Assert(vx.RunNode(node, &vx.Sink{}) == nil, "warm-up-run-no-error")
 	}
 	sink := &vx.Sink{}
 	err := vx.RunNode(node, sink)
@@ -155,6 +174,39 @@ func VerifC21Range() {
 		ok = zzverif.And(ok, zzverif.And(m.Kind == vx.MsgRecord, zzverif.And(len(m.Rec.Values) == 1, zzverif.And(m.Rec.Values[0].TypeID == octosql.TypeIDInt, zzverif.And(m.Rec.Values[0].Int == start+int64(i), !m.Rec.Retraction)))))
 	}
 	zzverif.Assert(ok, "each-integer-once-ascending")
+}
+
+// verifSeqSource plays its k-th script on its k-th Run.
+type verifSeqSource struct {
+	scripts [][]vx.Msg
+	run     int
+}
+
+func (s *verifSeqSource) Run(ctx execution.ExecutionContext, produce execution.ProduceFn, metaSend execution.MetaSendFn) error {
+	k := s.run
+	s.run++
+	if k >= len(s.scripts) {
+		return nil
+	}
+	return vx.NewScriptSource(s.scripts[k]).Run(ctx, produce, metaSend)
+}
+
+// VerifC21RangeRerun: the SAME range node run twice with bounds that depend on the record in
+// scope (start = 0, end = the outer record's column, as in `a LOOKUP JOIN range(start=>0, end=>a.i)`):
+// each run emits the integers of ITS OWN interval.
+func VerifC21RangeRerun() {
+	r := int64(zzverif.Param("R"))
+	node := &rangeNode{start: execution.NewConstant(octosql.NewInt(0)), end: execution.NewVariable(0, 0)}
+	for k := 0; k < 2; k++ {
+		end := zzverif.Int64(fmt.Sprintf("end%d", k))
+		zzverif.Assume(zzverif.And(end >= 0, end <= r))
+		sink := &vx.Sink{}
+		ctx := vx.ExecCtx().WithRecord(execution.Record{Values: []octosql.Value{octosql.NewInt(end)}})
+		err := node.Run(ctx, sink.Produce, sink.Meta)
+		zzverif.Assert(err == nil, "no-error")
+		zzverif.Assert(int64(len(sink.Out)) == end, "each-run-emits-its-own-interval")
+	}
+	zzverif.Reach("ran-twice")
 }
 
 type verifRoundsSource struct {
